@@ -163,7 +163,7 @@ pub fn run_decoder(decoder: usize, input: &[u8]) -> &'static str {
 
 // ------------------------------------------------------------------ scaling families
 
-pub const SCALE_FAMILIES: [&str; 16] = [
+pub const SCALE_FAMILIES: [&str; 19] = [
     "hid: n unfinished initialisation packets on distinct channels",
     "hid: n single-packet messages on distinct channels",
     "hid: n unfinished initialisation packets on one channel",
@@ -180,6 +180,9 @@ pub const SCALE_FAMILIES: [&str; 16] = [
     "authenticator data: extension map of n entries",
     "u2f request: n data bytes",
     "cbor Bytes: array of n integers",
+    "base64: a short value followed by n line breaks",
+    "base64: a short value followed by n padding characters",
+    "json request options: challenge of n characters, mostly blanks and tabs",
 ];
 
 /// input of family `f` at size `n` (built in the worker: too large for a command line)
@@ -280,6 +283,9 @@ pub fn scale_input(f: usize, n: usize) -> (usize, Vec<u8>) {
             (9, serde_json::to_vec(&Value::Object(m)).unwrap())
         }
         10 => (12, "QUJD".repeat(n / 4 + 1).into_bytes()),
+        16 => (12, format!("QUJD{}", "\r\n".repeat(n / 2)).into_bytes()),
+        17 => (12, format!("QUJD{}", "=".repeat(n)).into_bytes()),
+        18 => (8, format!("{{\"publicKey\":{{\"challenge\":\"QUJD{}QUJD\",\"rpId\":\"example.com\"}}}}", " \\t".repeat(n / 3)).into_bytes()),
         11 => (20, format!("{}com", "ab.".repeat(n)).into_bytes()),
         12 => (21, format!("https://{}example.com\nexample.com", "ab.".repeat(n)).into_bytes()),
         13 => (6, cbor(&|b| {
@@ -921,7 +927,7 @@ pub fn run(ctx: &mut Ctx) {
 fn scale_base(f: usize, tier: crate::core::Tier) -> usize {
     let n = match f % SCALE_FAMILIES.len() {
         14 => 16_000,
-        10 | 15 => 200_000,
+        10 | 15 | 16 | 17 | 18 => 200_000,
         _ => 8_000,
     };
     if f % SCALE_FAMILIES.len() == 14 {
